@@ -41,11 +41,13 @@ MAX_CLI_CONFIRMATIONS = 80
 MAX_DETAILS_PER_SIGNATURE = 2
 
 QUICK_FAMILIES = ["F1", "F2", "F4", "F3", "F6", "F5"]
-THOROUGH_FAMILIES = QUICK_FAMILIES + ["F1p"]
+THOROUGH_FAMILIES = ["F1full", "F2", "F4", "F3", "F6", "F5", "F1p"]
 
 FAMILY_DOC = {
     "F1": "narrowing, single guards: declared type x guard x context shape x use (use enumerated only where the "
           "declared type or the guard's class supports it)",
+    "F1full": "narrowing, single guards: the complete product declared type x guard x context shape x use "
+              "(no applicability pruning; superset of F1)",
     "F1p": "narrowing, ordered guard pairs (g1 and g2 / g1 or g2 / nested g1 then g2), probe use",
     "F2": "operators: unary x type, binary x ordered type pair, augmented assignment x ordered type pair "
           "(str % x and **= not enumerated: typeshed types them with Any)",
@@ -73,14 +75,16 @@ def decl_family(t: str) -> str:
 
 
 def raw_signature(v: dict) -> str:
+    """Cause-level identity: family | failed clause | guard FORM (or operator / callee / template) | declared
+    type family.  Context shape, use, argument values and probe numbers are manifestations, not causes."""
     fam, clause, key = v["fam"], v["clause"], v["key"]
     if clause == "a" and str(v.get("value", "")).startswith("TypeError: unhashable type"):
         return f"{fam}|a|unhashable-operand"
     if fam == "F1":
-        tname, guard, shape = key[0], key[1], key[2]
+        tname, shape = key[0], key[2]
         if shape.startswith("pair-"):
-            return f"F1|{clause}|{shape}:{guard}|{decl_family(tname)}"
-        return f"F1|{clause}|{guard}|{decl_family(tname)}"
+            return f"F1|{clause}|{shape}:{v.get('form', '')}|{decl_family(tname)}"
+        return f"F1|{clause}|{v.get('form', key[1])}|{decl_family(tname)}"
     if fam == "F2":
         return f"F2|{clause}|{key[0]} {key[1]}|" + ",".join(key[2:])
     if fam == "F3":
@@ -96,39 +100,24 @@ def raw_signature(v: dict) -> str:
 
 def assign_signatures(viols: list[dict]) -> None:
     """Adds v["signature"].  A guard-PAIR violation is attributed to the single-guard signature of one
-    of its components when that component alone already violates the same clause for the same
-    declared-type family in this run (same cause, one more manifestation); otherwise it keeps a
-    signature of its own."""
+    of its component forms when that form alone already violates (the same clause, or clause (c) of
+    which (a)/(b) are consequences) for the same declared-type family in this run: same cause, one more
+    manifestation.  Otherwise the pair keeps a signature of its own."""
     singles = set()
     for v in viols:
-        if v["fam"] == "F1" and not v["key"][2].startswith("pair-"):
+        if not (v["fam"] == "F1" and v["key"][2].startswith("pair-")):
             v["signature"] = raw_signature(v)
-            singles.add(v["signature"])
+            if v["fam"] == "F1":
+                singles.add(v["signature"])
     for v in viols:
         if "signature" in v:
             continue
-        if v["fam"] == "F1" and v["key"][2].startswith("pair-"):
-            comb = v["key"][2][5:]
-            g1, g2 = v["key"][1].split(f" {comb} ", 1)
-            famname = decl_family(v["key"][0])
-            for g in (g1, g2):
-                for cl in (v["clause"], "c", "b", "a"):
-                    cand = f"F1|{cl}|{g}|{famname}"
-                    if cand in singles and cl == v["clause"]:
-                        v["signature"] = cand
-                        break
-                if "signature" in v:
-                    break
-            if "signature" not in v:
-                # unreachable-code consequences: a (b)/(a) failure in a pair whose component has a (c) signature
-                for g in (g1, g2):
-                    cand = f"F1|c|{g}|{famname}"
-                    if cand in singles:
-                        v["signature"] = f"F1|{v['clause']}|{g}|{famname}"
-                        break
-            if "signature" not in v:
-                f1, f2 = v.get("form", "+").split("+", 1)
-                v["signature"] = f"F1|{v['clause']}|pair-{comb}:{f1}+{f2}|{famname}"
+        famname = decl_family(v["key"][0])
+        forms = v.get("form", "+").split("+", 1)
+        for f in forms:
+            if f"F1|{v['clause']}|{f}|{famname}" in singles or f"F1|c|{f}|{famname}" in singles:
+                v["signature"] = f"F1|{v['clause']}|{f}|{famname}"
+                break
         else:
             v["signature"] = raw_signature(v)
 
@@ -302,11 +291,15 @@ def _cli_confirm(item: dict) -> dict:
 # --------------------------------------------------------------------------- run
 
 
-def run(ctx: Ctx, families: list[str] | None = None, confirm: bool = True) -> Result:
+def run(ctx: Ctx, families: list[str] | None = None, confirm: bool = True, select: Any = None) -> Result:
+    """families / select (a predicate on specs) restrict the enumeration; used by detection drivers only
+    (a restricted run reports exhaustive relative to the restricted space and is never the recorded evidence)."""
     fams = families or (QUICK_FAMILIES if ctx.quick else THOROUGH_FAMILIES)
     t0 = time.time()
     cache = run_isolated(_warm, 0, timeout=1800)
     specs = _specs_for(fams)
+    if select is not None:
+        specs = [s for s in specs if select(s)]
     jobs = _jobs(specs, cache)
     order = seeded_order(list(range(len(jobs))), ctx.seed)
     log(f"C01: {len(specs)} functions in {len(jobs)} modules, families {fams} (warm-up {time.time() - t0:.1f}s)")
